@@ -66,6 +66,8 @@ mod verif_entry {
     static mut ENTRY_IGNORE: Option<bool> = None;
     static mut PARALLELISM: usize = 3;
     static mut HAS_ENTRY_OPTIONS: bool = true;
+    static mut ENTRY_SAMPLE_COUNT: Option<u32> = None;   // options that must not influence which thread counts are run
+    static mut ENTRY_SAMPLE_SIZE: Option<u32> = None;
 
     fn bench_fn(b: Bencher) {
         unsafe {
@@ -80,6 +82,8 @@ mod verif_entry {
         BenchOptions {
             threads: if n == 0 { None } else { Some(Cow::Borrowed(unsafe { &ENTRY_THREADS[..n] })) },
             ignore: unsafe { ENTRY_IGNORE },
+            sample_count: unsafe { ENTRY_SAMPLE_COUNT },
+            sample_size: unsafe { ENTRY_SAMPLE_SIZE },
             ..Default::default()
         }
     }
@@ -128,14 +132,34 @@ mod verif_entry {
     fn thread_counts_case(n: usize) {
         let a: usize = kani::any(); let b: usize = kani::any(); kani::assume(a <= 3 && b <= 3);
         unsafe { ENTRY_NTHREADS = n; ENTRY_THREADS = [a, b, 1]; ENTRY_IGNORE = None; PARALLELISM = 3; HAS_ENTRY_OPTIONS = true; }
+        // whatever the other options are, the thread counts run are those of the list
+        unsafe { ENTRY_SAMPLE_COUNT = kani::any(); ENTRY_SAMPLE_SIZE = kani::any(); }
         let d = Divan::default();
         run(&d, Action::Test, &ENTRY, None);
         let ra = if a == 0 { 3 } else { a }; let rb = if b == 0 { 3 } else { b };
         let (nr, r) = unsafe { (NRUNS, RUNS) };
-        if n == 0 { assert!(nr == 1 && r[0] == 1, "[C15] default thread count is 1"); }
-        else if n == 1 || ra == rb { assert!(nr == 1 && r[0] == ra, "[C15] a thread count of 0 means the available parallelism and duplicate counts collapse"); }
-        else { assert!(nr == 2 && r[0] == ra.min(rb) && r[1] == ra.max(rb), "[C15] one run per distinct thread count, ascending"); }
-        assert!(unsafe { ALL_FRESH }, "[C03] every thread count is run with a fresh benchmark context (its samples and iters figures are its own)");
+        // (Kani's assert! also ASSUMES its condition afterwards; the statements of different properties are therefore
+        //  checked on separate nondeterministic branches, so that one's failure cannot mask another's)
+        let fresh = unsafe { ALL_FRESH };
+        let (ca, cb) = if n == 1 { (ra, ra) } else { (ra, rb) };
+        let mut in_list = true; let mut seen_a = false; let mut seen_b = false;
+        let mut i = 0;
+        while i < 4 { if i < nr { if r[i] != ca && r[i] != cb { in_list = false; } if r[i] == ca { seen_a = true; } if r[i] == cb { seen_b = true; } } i += 1; }
+        match kani::any::<u8>() % 3 {
+            0 => {
+                if n == 0 { assert!(nr == 1 && r[0] == 1, "[C15] default thread count is 1"); }
+                else if n == 1 || ra == rb { assert!(nr == 1 && r[0] == ra, "[C15] a thread count of 0 means the available parallelism and duplicate counts collapse"); }
+                else { assert!(nr == 2 && r[0] == ra.min(rb) && r[1] == ra.max(rb), "[C15] one run per distinct thread count, ascending"); }
+            }
+            1 => assert!(fresh, "[C03] every thread count is run with a fresh benchmark context (its samples and iters figures are its own)"),
+            _ => {
+                // C03: a run on T threads is a run on T threads, whatever n and s are
+                if n >= 1 {
+                    assert!(in_list, "[C03] the benchmark runs on the configured number of threads");
+                    assert!(seen_a && seen_b, "[C03] every configured thread count is run");
+                }
+            }
+        }
         kani::cover!(a == 0 && b == 3); kani::cover!(ra != rb);
     }
     entry_harness!(thread_counts_two, { thread_counts_case(2); });
